@@ -59,7 +59,7 @@ CHECKS["C05"] = {
 CHECKS["C06"] = {
     "technique": "runtime monitoring: slot-invariant hook that walks every live memory block at every statement boundary (variant tag vs declared type, value range), plus reference prediction of stored value or Overflow for every generated statement; repeated on the plain release build",
     "text": "Exhaustive over the boundary set of each numeric type x each target type x every route into a variable (assignment, by-value and by-ref parameter, SHARED variable in a SUB, FOR initial value/limit/increment, READ, INPUT from console and file, function result, array element, record field, CONST with suffix) and every arithmetic operator on all boundary pairs; random in-range values. The monitor observed every scalar slot (variables, array elements, record fields, parameters, counters) at every statement boundary of every run.",
-    "note": "Also: exact quotients close to whole numbers, literals of 39-400 digits (must never be stored), literals at the edges of the whole-number types stored directly (negated &H / &O words, double negations, the minima) through seven routes. Rounding ties and values not exactly representable in their type are discarded; the numeric workload is also run on the plain release profile (overflow checks off) because the verdict can flip between profiles.",
+    "note": "Also: exact quotients close to whole numbers, literals of 39-400 digits (must never be stored), literals at the edges of the whole-number types stored directly (negated &H / &O words, double negations, the minima) through seven routes; every computed value is also bound to a by-value parameter of the target type. Rounding ties and values not exactly representable in their type are discarded; the numeric workload is also run on the plain release profile (overflow checks off) because the verdict can flip between profiles.",
     "design": "DESIGN.md section 2 C06",
 }
 CHECKS["C09"] = {
@@ -77,7 +77,7 @@ CHECKS["C02"] = {
 CHECKS["C14"] = {
     "technique": "runtime monitoring, metamorphic between the implementation's two evaluators: CONST form vs inlined expression run by the real code, compared on output, outcome and the run-time variant tag observed at the print hook; rejection verdicts compared with the run-time outcome of the expression",
     "text": "3e4 (quick) / 5e5 (thorough) constant expressions over literals at the type boundaries, zero divisors and earlier constants, all operators, depth <= 4, declared globally, used inside a SUB or declared inside a SUB, bare and with every suffix. Accepted: same stdout, outcome and run-time type as the inlined parenthesised expression (converted through a variable of the suffix type). Rejected with Overflow / DivisionByZero: the expression must raise exactly that error at run time.",
-    "note": "A rejection with another error is a violation when the same expression evaluates normally at run time (that is how the folder's INTEGER-only AND/OR was found and repaired); when the run-time evaluation fails too it is counted and listed, not judged. SUBs whose parameter has the name of a global constant are generated: a CONST expression that uses the name there must be rejected (Invalid constant) or agree with the inlined form.",
+    "note": "A rejection with another error is a violation when the same expression evaluates normally at run time (that is how the folder's INTEGER-only AND/OR was found and repaired); when the run-time evaluation fails too it is counted and listed, not judged. Almost equal floating literals in comparisons and string constants of 32766 / 32767 characters are generated. SUBs whose parameter has the name of a global constant are generated: a CONST expression that uses the name there must be rejected (Invalid constant) or agree with the inlined form.",
     "design": "DESIGN.md section 2 C14",
 }
 CHECKS["C16"] = {
@@ -112,7 +112,7 @@ ALL = ["C%02d" % i for i in range(1, 21)]
 CHECKS["C04"] = {
     "technique": "runtime monitoring: shadow-model monitor - every write the generated program makes is mirrored into a model keyed by (variable, index tuple, field path); printed read-backs and the hook's end-of-run dump of every element and field of every array and record are compared with the model",
     "text": "Straight-line programs over arrays of 1-3 dimensions with assorted lower bounds (element types: the five built-ins, STRING * n, records with a nested record and fixed strings), record and fixed-string variables; bounded-exhaustive over every shape with at most 24 (quick) / 60 (thorough) elements: write a unique value to every element, read all back, then access EVERY tuple of the one-step-extended index box that lies outside the bounds (reads and writes, counted by an ON ERROR handler) and compare the complete dump; random mixes with subscripts given as INTEGER, LONG and SINGLE expressions, REDIM histories (explicit and bare), fixed strings assigned directly, through a by-reference parameter and by record copy.",
-    "note": "String values include characters above 127 (a STRING * n slot holds n characters, not n bytes). Array parameters, REDIM inside procedures and ERASE are not generated; rounding ties are discarded; a NUL character ends a fixed-length string (pinned by a repository test, not judged).",
+    "note": "Fixed-length string fields are also written through the $-qualified spelling. String values include characters above 127 (a STRING * n slot holds n characters, not n bytes). Array parameters, REDIM inside procedures and ERASE are not generated; rounding ties are discarded; a NUL character ends a fixed-length string (pinned by a repository test, not judged).",
     "design": "DESIGN.md section 2 C04",
 }
 CHECKS["C18"] = {
